@@ -144,7 +144,7 @@ func finish(repo, vdir, prop, tier string, seed int, jobs []*job, funcs map[stri
 				inconclusive = append(inconclusive, fmt.Sprintf("%s: known finding %s example did not reproduce natively: %s %s", p.item.harness, p.kf, compactJSON(nr), p.item.err))
 				continue
 			}
-			if listed && kf.Property == prop {
+			if listed && kf.appliesTo(prop) {
 				if !knownPrinted[p.kf] {
 					knownPrinted[p.kf] = true
 					kfList = append(kfList, p.kf)
